@@ -373,7 +373,8 @@ class ObtainSimpleGraph(ObtainGraphAction):
             setattr(args, self.dest, G)
         except ValueError as e:
             parser.error(str(e))
-        except FileNotFoundError as e:
+        except OSError as e:
+            # file not found, is a directory, not readable, ...
             parser.error(str(e))
 
 
@@ -390,7 +391,8 @@ class ObtainBipartiteGraph(ObtainGraphAction):
             setattr(args, self.dest, B)
         except ValueError as e:
             parser.error(str(e))
-        except FileNotFoundError as e:
+        except OSError as e:
+            # file not found, is a directory, not readable, ...
             parser.error(str(e))
 
 
@@ -407,5 +409,6 @@ class ObtainDirectedAcyclicGraph(ObtainGraphAction):
             setattr(args, self.dest, D)
         except ValueError as e:
             parser.error(str(e))
-        except FileNotFoundError as e:
+        except OSError as e:
+            # file not found, is a directory, not readable, ...
             parser.error(str(e))
